@@ -64,3 +64,16 @@ Theorem C04_live_instance_is_the_sheet : forall rows ts root_name, Nest rows ts 
   map (fun p => last p []) (ipaths_live [] (inst false (survey_tree root_name ts))) = root_name :: row_names rows.
 Proof. exact live_instance_is_the_sheet. Qed.
 Print Assumptions C04_live_instance_is_the_sheet.
+
+(* ---- repeat_count: a single reference is used directly, anything else gets the generated <name>_count node. The decision is
+   expression.is_pyxform_reference (Model/RefText.v, over the modelled PYXFORM_REF pattern) ---- *)
+Require Import PX.Model.Names PX.Model.Scanner PX.Model.RefText PX.Proofs.RefText.
+Theorem C04_single_reference_recognised : forall name, ncname_plain name -> is_pyxform_reference ([36;123]%N ++ name ++ [125]%N) = true.
+Proof. exact is_reference_wellformed. Qed.
+Print Assumptions C04_single_reference_recognised.
+(* ${a} + ${b}, ${a}-1, ${a} ${b} ... : whatever follows the closing brace (other than one final line break) makes it an expression *)
+Theorem C04_expression_is_not_a_single_reference : forall name t, ncname_plain name -> t <> [] -> t <> [10%N] ->
+  is_pyxform_reference ([36;123]%N ++ name ++ [125]%N ++ t) = false.
+Proof. exact is_reference_rejects_continuation. Qed.
+Print Assumptions C04_expression_is_not_a_single_reference.
+
